@@ -16,7 +16,13 @@ fn usage() -> i32 {
 fn main() {
     sim::trace::install();
     // a panic in the code under test is caught per poll; keep the default hook quiet
-    std::panic::set_hook(Box::new(|_| {}));
+    std::panic::set_hook(Box::new(|info| {
+        // panics of the code under test are caught per poll and reported as violations;
+        // a panic anywhere else is a harness bug and must be visible
+        if !sim::IN_POLL.with(|f| f.get()) || std::env::var("MC_PANIC").is_ok() {
+            eprintln!("MACHINERY ERROR: harness panic: {info}");
+        }
+    }));
     let args: Vec<String> = std::env::args().collect();
     sim::enter_thread_runtime();
     let code = match args.get(1).map(|x| x.as_str()) {
